@@ -226,7 +226,18 @@ def run_case(case):
             pass
         return np.array(DeterministicSimulator().py_simulate(itx, tp.copy()).py_get_result())
 
+    def built_before_values_were_set():
+        # the interface is made while the model still holds other initial values and rate constants; they are set
+        # (set_species / set_params: value edits, which do not make an interface stale) before the run
+        Z = distractor()
+        itx = prep(ModelCSimInterface(Z))
+        Z.set_species({k_: float(v_) for k_, v_ in sp["x0"].items()})
+        Z.set_params({k_: v_ for k_, v_ in sp["params"].items()})
+        return np.array(DeterministicSimulator().py_simulate(itx, tp.copy()).py_get_result())
+
     if case.get("history", True):
+        calls["DeterministicSimulator.py_simulate(interface built before set_species/set_params)"] = built_before_values_were_set
+        C["history_runs"] += 1
         calls["DeterministicSimulator.py_simulate(interface prepared before another model's)"] = prepared_then_other_prepared
         calls["DeterministicSimulator.py_simulate(interface re-used after another model was simulated)"] = reused_after_other_model
         C["history_runs"] += 2
